@@ -50,7 +50,7 @@ REQ_KINDS = ["doc-small", "doc-large", "menu", "menu", "menu-root", "menu-root",
 GROUPS = [["menu", "menu-root", "menu-via-symlink"], ["menu", "menu-via-symlink"], ["mbox-folder", "mbox-message", "mbox-message-1"],
           ["maildir-folder", "maildir-message", "maildir-message-2"],
           ["zip-listing", "zip-member", "zip-html-a", "zip-html-b", "zip2-member", "zip-web-listing", "zip2-listing"],
-          ["script", "script-big", "gz", "gz-big"], ["html", "tal", "pyg"]]
+          ["script", "script-big", "gz", "gz-big"], ["script", "script", "script-big"], ["html", "tal", "pyg"]]
 BIG = ["doc-large", "script-big", "gz-big", "menu-root", "mbox-folder"]
 PROTOS = c20.PROTOS + ["wap-auto", "http", "https"]
 TIMEOUT = 60
@@ -106,8 +106,14 @@ def _burst(rng, n):
             # a slow reader only matters when the response is larger than its send buffer
             kind = rng.choice([k for k in BIG if (group is None or k in group)] or BIG)
         p = rng.choice(PROTOS)
-        req, tls = proto.make_request(p, KINDS[kind])
-        out.append({"kind": kind, "proto": p, "net": _netplan(rng, r, len(req) + (13 if tls else 0))})
+        search = None
+        if kind in ("script", "script-big", "pyg", "menu", "tal") and rng.random() < 0.6:
+            search = rng.choice(["alpha", "beta gamma", "x" * 40, "q1", "q2"])
+        req, tls = proto.make_request(p, KINDS[kind], search)
+        cl = {"kind": kind, "proto": p, "net": _netplan(rng, r, len(req) + (13 if tls else 0))}
+        if search is not None:
+            cl["search"] = search
+        out.append(cl)
     return out
 
 
@@ -176,7 +182,7 @@ def gen(seed, index, tier):
 
 
 def _start_client(run, spec, t0):
-    req, tls = proto.make_request(spec["proto"], KINDS[spec["kind"]])
+    req, tls = proto.make_request(spec["proto"], KINDS[spec["kind"]], spec.get("search"))
     net = spec["net"]
     role = net["role"]
     at = t0 + net.get("at", 0.0)
@@ -213,9 +219,9 @@ def execute(sc, tape=None):
         refs = {}
         for burst in sc["bursts"]:
             for cl in burst:
-                key = (cl["kind"], cl["proto"])
+                key = (cl["kind"], cl["proto"], cl.get("search"))
                 if key not in refs:
-                    req, tls = proto.make_request(cl["proto"], KINDS[cl["kind"]])
+                    req, tls = proto.make_request(cl["proto"], KINDS[cl["kind"]], cl.get("search"))
                     out, _ = harness.one_shot(refroot, req, tls=tls, handlers="full",
                                               seed=sc["sched_seed"])
                     refs[key] = proto.normalize(cl["proto"], out)
@@ -263,7 +269,7 @@ def execute(sc, tape=None):
                         if role == "slow" and cl["net"]["gives_up"]:
                             continue
                         got = proto.normalize(cl["proto"], bytes(c.s2c))
-                        want = refs[(cl["kind"], cl["proto"])]
+                        want = refs[(cl["kind"], cl["proto"], cl.get("search"))]
                         if not c.server_done():
                             viol = {"oracle": "answered", "signature": {"oracle": "answered", "role": role},
                                     "detail": "client %d (%s %s) never finished: blocked=%r" % (
